@@ -323,7 +323,7 @@ SPECIAL = [{"kind": "special", "what": "target_domain"}]
 
 def cases(rng: random.Random, tier: str):
     out = load_corpus() + [dict(c) for c in SPECIAL]
-    n = {"quick": 9000, "escalated": 36000}.get(tier, 90000)
+    n = {"quick": 9000, "escalated": 30000}.get(tier, 90000)
     for _ in range(n):
         g = Gen(random.Random(rng.randrange(1 << 60)))
         depth = g.rng.choice([1, 2, 2, 3, 3, 4, 5])
@@ -337,7 +337,7 @@ def cases(rng: random.Random, tier: str):
         else:
             a = g.malformed()
         out.append({"kind": "expr", "build": a})
-    m = {"quick": 1500, "escalated": 6000}.get(tier, 15000)
+    m = {"quick": 1500, "escalated": 5000}.get(tier, 15000)
     exprs = [c for c in out if c["kind"] == "expr"]  # (special cases have no token stream)
     for _ in range(m):
         base = rng.choice(exprs)
